@@ -67,5 +67,11 @@ fn main() {
     run.ev.set("rule", json!("every operation sequence up to the listed depth over add(e) for every (h1,h2) class (+ same-class distinct elements), add_n(e,{0,2,5}), merge(pre-built sketches), clear; one tree per (w,d) shape x shift vector x counter type"));
     run.ev.assume("hash classes enumerated through the TableHasher seam (h1,h2 both in [0,w), raw values also offset by multiples of w near 2^63)");
     run.ev.assume("totals stay below 255 so that no counter type overflows (overflow is outside the property)");
+    // the Extend implementations deliver the same streams: extend(chunk1); extend(chunk2) == add loop
+    let (xp_cases, xp_viols) = checks::extendpaths::cms(if thorough { 5 } else { 4 });
+    for v in xp_viols {
+        run.violation(v);
+    }
+    run.ev.set("extend_path_cases", serde_json::json!(xp_cases));
     run.finish();
 }
